@@ -26,6 +26,13 @@ type vhSpecResult struct {
 // the unadapted browser behaviour (dispatch only when the data buffer is non-empty,
 // no end-of-stream dispatch) used by C02.
 func vhSpecInterpret(stream []byte, conn bool, strict bool, initialID string) vhSpecResult {
+	return vhSpecInterpretEx(stream, conn, strict, !strict, initialID)
+}
+
+// vhSpecInterpretEx: needData = dispatch only when the data buffer is non-empty
+// (browser behaviour); flushAtEnd = dispatch a pending event at a clean end of stream.
+func vhSpecInterpretEx(stream []byte, conn bool, needData bool, flushAtEnd bool, initialID string) vhSpecResult {
+	strict := needData
 	var res vhSpecResult
 	s := stream
 	// A leading BOM is dropped (only at the very start of the stream).
@@ -134,7 +141,7 @@ func vhSpecInterpret(stream []byte, conn bool, strict bool, initialID string) vh
 		}
 	}
 	// clean end: adaptation 3 — a pending event whose last line was terminated is dispatched
-	if !strict {
+	if flushAtEnd {
 		dispatch()
 	}
 	res.end = vhEndClean
